@@ -626,7 +626,7 @@ def replay_connect_plain():
                 observed=bad or 'conforms')
 
 
-def units(tier):
+def _own_units(tier):
     from . import c18
     wd = c18.WrapperDelegation()
     # after the login encryption step connection.socket / file_object are cipher wrappers: disconnect() reaches the real
@@ -638,3 +638,8 @@ def units(tier):
     # slot whether or not the predecessor is still alive, clear the thread slot on every exit
     tw.prop, tw.name = 'C16', 'C16.hand-over'
     return [Lifecycle(), ConnectModel(), wd, tw]
+
+
+def units(tier):
+    from .deps import dependency_units
+    return _own_units(tier) + dependency_units('C16')
